@@ -30,8 +30,9 @@ def main(tier, seed):
     quick = tier == "quick"
     alld = range(cal.ORD_MIN, cal.ORD_MAX + 1)
     bnd = cal.boundary_ordinals()
-    base = sorted(set(rng.sample(bnd, 14000 if quick else len(bnd))) |
-                  set(rng.sample(alld, 6000 if quick else 150000)))
+    # (thorough is bounded by memory: every task carries its list of (start, expected) pairs)
+    base = sorted(set(rng.sample(bnd, 14000 if quick else 45000)) |
+                  set(rng.sample(alld, 6000 if quick else 30000)))
     tasks = []
     for K in CALS:
         for n in DAYS_N:
@@ -41,7 +42,7 @@ def main(tier, seed):
             for s in (1, -1):
                 tasks.append((bindir, "C03", K, ["%+dw" % (s * n)], mkpairs(K, base, 7 * s * n, ctx), "w"))
         # random counts, any size that keeps the result in range
-        small = rng.sample(base, 2500 if quick else 20000)
+        small = rng.sample(base, 2500 if quick else 8000)
         for _ in range(60 if quick else 400):
             n = rng.choice([1, -1]) * int(10 ** rng.uniform(0, 5.95))
             tasks.append((bindir, "C03", K, ["%+dd" % n], mkpairs(K, small, n, ctx), "d-rand"))
